@@ -59,6 +59,8 @@ LAST_LEAK = [None]
 
 def oracle(case, obs):
     if LAST_LEAK[0] is not None:
+        if "setter_on_one_array_changed_the_calibration_of_another" in LAST_LEAK[0]:
+            return LAST_LEAK[0]
         return {"label_does_not_address_its_slice": LAST_LEAK[0]}
     ctor = obs["ctor"]
     f = check_obs(case, ctor, None)
